@@ -218,6 +218,8 @@ pub struct QRec { pub id: Ghost<int>, pub st: StT, pub w: usize, pub h: u64 }
 impl QRec {
     pub fn weight(&self) -> (r: usize) ensures r == self.w { self.w }
     pub fn hash(&self) -> (r: u64) ensures r == self.h { self.h }
+    #[verifier::external_body] pub fn set_in_eviction(&self, v: bool) { }
+    #[verifier::external_body] pub fn is_in_eviction(&self) -> bool { unimplemented!() }
 }
 #[verifier::external_body]
 pub struct ListT { _p: core::marker::PhantomData<QRec> }
@@ -386,6 +388,30 @@ impl QueuesT {
                     rounds = rounds + 1;
                     cur = self.main_queue@;
                 }
+//@end
+// ---- S3Fifo::push: a record whose hash is still in the ghost window (it was evicted from the small queue recently)
+// enters the MAIN queue, any other record enters the small queue; weights stay exact
+//@region foyer-memory/src/eviction/s3fifo.rs :: impl~^impl<K, V, P> Eviction for S3Fifo<K, V, P>/fn push name=s3fifo_push whole=1 rules=assert-eq sub=@let state = unsafe \{ &mut \*record\.state\(\)\.get\(\) \};@@ sub=@\bstate\.@record.st.@
+//@head
+    fn s3fifo_push(&mut self, mut record: QRec)
+        requires old(self).wfq(), record.st.freq == 0, record.st.queue == Queue::None,
+            qsum(old(self).small_queue@) + qsum(old(self).main_queue@) + old(self).ghost_queue.weight + record.w <= usize::MAX,
+        ensures
+            final(self).ghost_queue == old(self).ghost_queue,
+            final(self).small_weight == qsum(final(self).small_queue@) && final(self).main_weight == qsum(final(self).main_queue@), // @label queue_weights_stay_exact
+            old(self).ghost_queue.counts@.contains(record.h) ==> final(self).small_queue@ == old(self).small_queue@
+                && final(self).main_queue@.len() == old(self).main_queue@.len() + 1 && final(self).main_queue@.last().id@ == record.id@ && final(self).main_queue@.last().st.queue == Queue::Main
+                && final(self).main_queue@.drop_last() == old(self).main_queue@, // @label a_recently_evicted_key_re_enters_through_the_main_queue
+            !old(self).ghost_queue.counts@.contains(record.h) ==> final(self).main_queue@ == old(self).main_queue@
+                && final(self).small_queue@.len() == old(self).small_queue@.len() + 1 && final(self).small_queue@.last().id@ == record.id@ && final(self).small_queue@.last().st.queue == Queue::Small
+                && final(self).small_queue@.drop_last() == old(self).small_queue@, // @label a_new_key_enters_through_the_small_queue
+//@prologue
+        let ghost s0 = self.small_queue@;
+        let ghost m0 = self.main_queue@;
+//@after /self\.main_queue\.push_back\(record\);/
+            proof { lemma_qsum_push(m0, self.main_queue@.last()); assert(self.main_queue@.drop_last() =~= m0); }
+//@after /self\.small_queue\.push_back\(record\);/
+            proof { lemma_qsum_push(s0, self.small_queue@.last()); assert(self.small_queue@.drop_last() =~= s0); }
 //@end
 }
 pub open spec fn old_main_of(m: Seq<QRec>) -> Seq<QRec> { m.drop_last() }
